@@ -49,6 +49,16 @@ def gen(tier, rng):
                 if tier == "thorough" and k == 4 and rng.random() < 0.85:
                     continue
                 lits.append(("text", '"' + body + '"'))
+    # sequences of whole units (an escape sequence or one raw symbol, now also a raw carriage return): adjacent escapes such as \r\n
+    units = ["\\" + c for c in ('"', "\\", "a", "n", "t", "r", "b", "q")] + [c for c in SYM if c not in ('"', "\\")] + ["\r"]
+    have = set(x[1] for x in lits)
+    for k in (2, 3):
+        for t in itertools.product(units, repeat=k):
+            if k == 3 and rng.random() < (0.9 if tier == "quick" else 0.0):
+                continue
+            lit = '"' + "".join(t) + '"'
+            if lit not in have:
+                have.add(lit); lits.append(("text", lit))
     for k in range(0, 3):
         for t in itertools.product(SYM, repeat=k):
             body = "".join(t)
@@ -114,6 +124,6 @@ def run(tier):
         ck.fail("C19:%s:%s" % (kind, s.encode().hex()[:80]), "literal %r (%s): accepted=%s printed %r contradicts Literals.tla" % (s, kind, recs[i]["accepted"], outs.get(i)), dict(kind=kind, src=s, accepted=recs[i]["accepted"], out=outs.get(i)))
     ck.sample(dict(kind=lits[5][0], src=lits[5][1], accepted=accepted[5], out=outs.get(5)))
     ck.sample(dict(kind=lits[-5][0], src=lits[-5][1], accepted=accepted[-5], out=outs.get(len(lits) - 5)))
-    ck.cov["rule"] = "integer literals at every boundary and every length 1..22, decimal literals (compared when exactly representable), all character literals with bodies of <=2 symbols and all single text literals with bodies of <=3 (quick, sampled at 3) / <=4 (thorough, sampled at 4) symbols over a 15-symbol alphabet (quotes, backslash, escape letters, a non-escape letter, line feed, 2/3/4-byte characters)"
+    ck.cov["rule"] = "integer literals at every boundary and every length 1..22, decimal literals (compared when exactly representable), all character literals with bodies of <=2 symbols and all single text literals with bodies of <=3 (quick, sampled at 3) / <=4 (thorough, sampled at 4) symbols over a 15-symbol alphabet (quotes, backslash, escape letters, a non-escape letter, line feed, 2/3/4-byte characters); all text literals of 2 and (quick: a 10% sample of) 3 units, a unit being an escape sequence or a raw symbol incl. a raw carriage return (adjacent escapes such as \\r\\n)"
     ck.assumptions.append("decimal literals outside the dyadic fragment are not compared (correct rounding is not decided)")
     return ck.finish(exhaustive=False)
